@@ -13,6 +13,9 @@
 (*   3. the verdict  Verdict(A, B) \in {"yes", "no", "either"},             *)
 (*   4. the laws the relation has to obey (checked by TLC in MC_TypeCompat),*)
 (*   5. the pipeline rule: EdgeVerdict / Construct.                         *)
+(*   6. how an edge arises from two functions (MapSpecs -> via, names),     *)
+(*   7. a consumer with several array inputs: every input is judged by its  *)
+(*      own MapSpec entry (locality laws).                                  *)
 (***************************************************************************)
 EXTENDS Naturals, Sequences, FiniteSets
 
